@@ -2,6 +2,7 @@
    equals the hand model Model/Cleaner.v on every grid, agent list, joint action and configuration. *)
 Require Import JV.Base.Prelude JV.Base.JaxIndex JV.Base.Codec JV.Base.TimeStep JV.Gen.TimeStepSrc JV.Gen.CleanerSrc.
 Require JV.Model.Cleaner.
+Require Import Btauto.
 Module M := JV.Model.Cleaner.
 
 Definition conv (s : State) : M.state := M.mkS (s_grid s) (s_agents_locations s) (s_action_mask s) (s_step_count s).
@@ -24,8 +25,10 @@ Proof. reflexivity. Qed.
 
 Lemma mask_src R C g ls : compute_action_mask R C g ls = M.compute_mask R C g ls.
 Proof.
-  unfold compute_action_mask, M.compute_mask. apply map_ext. intros loc. change MOVES with M.moves. apply map_ext. intros mv.
-  unfold M.move_valid. rewrite !Z.geb_leb. reflexivity.
+  unfold compute_action_mask, M.compute_mask. cbv zeta. apply map_ext. intros loc. change MOVES with M.moves. apply map_ext. intros mv.
+  unfold M.move_valid. cbv beta iota zeta. rewrite ?Z.geb_leb. unfold WALL, M.WALL.
+  (* the conjunction of the four bounds tests and the wall test, up to the order of the conjuncts *)
+  first [reflexivity | btauto].
 Qed.
 
 Lemma changed_src g g' : m_sum (m_cmp (fun x_ y_ => negb (x_ =? y_)) g g') = M.count_changed g g'.
